@@ -30,7 +30,8 @@ from vf.refproto.cfb8 import CFB8
 LEVEL = 'exploration'
 RULE = (
     'A-full: 4 secrets (00*16, ff*16, 00..0f, one seed-derived) x 2 content '
-    'pairs (out=counter/in=seed-derived, out=zeros/in=ff) x every pair of '
+    'pairs (out=counter/in=seed-derived, out=zeros/in=ff; only the first '
+    'pair when a stream has 7 bytes) x every pair of '
     'stream lengths (m out, n in) in 0..6 (quick) / 0..7 (thorough), not both '
     '0, x ALL compositions of the out stream into send calls x ALL '
     'compositions of the in stream into receive calls x ALL interleavings of '
@@ -362,7 +363,7 @@ def _split_classes(cls, parts, who, mult):
 def w_full(ctx, task):
     """ALL compositions x ALL interleavings for one (secret, pair, m, n)."""
     import collections
-    si, pi, m, n = task
+    si, pi, m, n, styles = task
     E = env()
     sname, secret = secrets_for(ctx.seed)[si]
     out_plain = content(PAIRS[pi][0], m, ctx.seed)
@@ -371,7 +372,6 @@ def w_full(ctx, task):
     cls = collections.Counter()
     ncase = nontriv = 0
     comps_in = list(compositions(n))
-    styles = ('r', 'v', 'x') if n else ('r',)
     for co in compositions(m):
         a = len(co)
         for ci in comps_in:
@@ -416,7 +416,7 @@ def w_full(ctx, task):
     for k, v in coll.n.items():
         ctx.outcome('A-full FAIL ' + k, v)
     coll.flush(ctx)
-    if (si, pi, m, n) == (2, 0, 3, 3):
+    if (si, pi, m, n) == (2, 0, 3, 3) and len(styles) == 3:
         ctx.sample({'part': 'A-full', 'secret': secret, 'out_plain':
                     out_plain, 'in_plain': in_plain, 'wire': ref_enc(
                         secret, out_plain), 'compositions_out': 4,
@@ -839,8 +839,10 @@ def w_c(ctx, task):
 
 def bounds(ctx):
     if ctx.thorough:
-        return dict(full=7, long=range(8, 13), both_pairs_to=10, empty=5)
-    return dict(full=6, long=range(7, 11), both_pairs_to=8, empty=5)
+        return dict(full=7, full_both_pairs=6, long=range(8, 13),
+                    both_pairs_to=10, empty=5)
+    return dict(full=6, full_both_pairs=6, long=range(7, 11),
+                both_pairs_to=8, empty=5)
 
 
 def run(ctx):
@@ -848,9 +850,20 @@ def run(ctx):
     ctx.pmap(w_keys, [0])
     # part A + B: plain function calls, one pool
     F = b['full']
-    full = [(si, pi, m, n) for si in range(4) for pi in range(2)
-            for m in range(F + 1) for n in range(F + 1) if m or n]
-    full.sort(key=lambda t: -(t[2] + t[3]))
+    full = []
+    for si in range(4):
+        for m in range(F + 1):
+            for n in range(F + 1):
+                if not (m or n):
+                    continue
+                for pi in range(2 if max(m, n) <= b['full_both_pairs'] else 1):
+                    if not n:
+                        full.append((si, pi, m, n, ('r',)))
+                    elif m + n >= 12:       # big cells: one task per style
+                        full += [(si, pi, m, n, (st,)) for st in 'rvx']
+                    else:
+                        full.append((si, pi, m, n, ('r', 'v', 'x')))
+    full.sort(key=lambda t: (-(t[2] + t[3]), t))
     longs = []
     for L in b['long']:
         nshard = max(1, 1 << max(0, 2 * (L - 1) - 15))
@@ -858,7 +871,7 @@ def run(ctx):
         for si in range(4):
             for pi in range(2 if L <= b['both_pairs_to'] else 1):
                 longs += [(si, pi, L, s, nshard) for s in range(nshard)]
-    longs.sort(key=lambda t: -t[2])
+    longs.sort(key=lambda t: (-t[2], t))
     empties = [(si, pi, L) for si in range(4) for pi in range(2)
                for L in range(1, b['empty'] + 1)]
     kib = []
